@@ -198,7 +198,7 @@ fn rand_ws_text(rng: &mut ChaCha8Rng, maxlen: usize, clean_only: bool) -> String
         vec![" ", " ", "\t", "\n", "\r\n", "\u{00A0}", "\u{3000}", "\u{2003}", "\u{000B}", "\u{0085}", "\u{1680}", "\u{2028}", "\u{205F}"]
     };
     let mut nw: Vec<&str> = vec!["a", "b", "c", "ä", "e\u{0301}", "€", "字", "😀", "🇩🇪", "\u{200B}", "x", "-", ".", "\u{FEFF}", "👨\u{200D}👩",
-                                      "\u{1F1E9}", "\u{1F1EA}", "\u{1100}", "\u{1161}"];
+                                      "\u{1F1E9}", "\u{1F1EA}", "\u{1100}", "\u{1161}", giant_cluster()];
     let mut ws = ws;
     // one text in three is pure ASCII (byte-wise fast paths), with every ASCII White_Space character
     if rng.random_bool(0.34) {
